@@ -1,4 +1,4 @@
-\* replay: RandomChurn, 2 peers, window 1
+\* replay: RandomChurn, 2 peers, window 1, max_peers 0 (one peer admitted by requests)
 SPECIFICATION Spec
 CONSTANTS
   Peers = {"p1", "p2"}
@@ -12,7 +12,7 @@ CONSTANTS
   WalkTimeout = 1
   TargetInterval = 0
   TargetPeers <- MinusOne
-  MaxPeers <- MinusOne
+  MaxPeers = 0
   EdgeLen = 3
   NbSize = 1
   EdgeTimeout = 1
@@ -40,3 +40,4 @@ PROPERTY WalkTargets
 PROPERTY ForgetOnlyUnreachable
 PROPERTY WalkSpacing
 PROPERTY EdgeGrowsVerified
+PROPERTY PongCounted
